@@ -23,6 +23,7 @@ Proof.
   all: upd_tac; prj; cbn [inrep]; lists.
   all: repeat match goal with E : rp _ = _ |- _ => rewrite E in * end; cbn [inrep] in *.
   all: fin.
+  all: try (lists; fin).
   all: match goal with Est : rst (Rv ?s0 ?t) = Unborn |- _ => let U := fresh "U" in pose proof (I_R _ Hi t) as U; unfold rinv in U; rewrite Est in U; boolh; spec end.
   all: repeat match goal with E : rp _ = _ |- _ => rewrite E in * end; cbn [inrep] in *; fin.
 Qed.
